@@ -179,6 +179,23 @@ Example C19_regression_conn_lost_to_closeCh :
   sclosed (sess_of st 0%nat) = true.
 Proof. vm_compute. repeat split. Qed.
 
+(* the CAS in streamWrapper.Close is essential: with Close split into check / stream.Close / mark + Done, two
+   goroutines closing the SAME conn both pass the check and both give a reference back.  Listener closed,
+   conns 0 and 1 of one session open: the session is closed while conn 1 is still open, and the counter no
+   longer equals [listener reference] + open wrappers (C19_refcount's equation fails); one more Close - of
+   conn 1 - makes the counter negative: panic.  (WClose in the real model is one CAS-guarded step:
+   a second Close is a no-op, see C19_example_run.) *)
+Example C19_split_close_refutes_refcount :
+  let st0 := run [SessionUp; StreamIn 0; StreamIn 0; Wrap 0; Enqueue 0; PostCheck 0; Accept; Wrap 0; Enqueue 0; PostCheck 0; Accept;
+                  LCall; LStep 0; LStep 0; LStep 0; LStep 0] (init 4) in
+  let st2 := wclose_finish (wclose_finish st0 0) 0 in
+  let st3 := wclose_finish st2 1 in
+  wclose_check st0 0 = true /\                               (* both goroutines see closed == 0 in st0 *)
+  refs (sess_of st0 0%nat) = 2 /\ refs (sess_of st2 0%nat) = 0 /\
+  sclosed (sess_of st2 0%nat) = true /\ w_closed (wr st2 1%nat) = false /\ open_w st2 0 = 1%nat /\
+  panic st2 = false /\ panic st3 = true.
+Proof. vm_compute. repeat split. Qed.
+
 (* the ORDER of listener.Close's steps is essential: with the drain moved before close(closeCh)
    (run_drain_first: CAS -> drain -> close(closeCh) -> release) a stream that is queued between the drain
    and close(closeCh) passes the goroutine's re-check (closeCh still open) and is never drained: at rest,
